@@ -1,5 +1,6 @@
 import HexVerif.Lemmas.AsmDebug
 import HexVerif.Lemmas.SimLoadFile
+import HexVerif.Lemmas.XcmpPeepLabels
 /-
   C15 — trace and debug symbols report what is actually executing.
   Models: `Asm.emitGo` (debug table collection in hexasm.hpp `emitProgramBin`), `Sim.load`'s
@@ -82,6 +83,17 @@ theorem C15_loader_roundtrip (p : List (Dir × Loc)) (img : Image) (mem0 : Mem) 
       some (mem0.loadWords (wordsOfBytes img.bytes), Sim.loadedSymbols img.debug) := by
   obtain ⟨h1, h2⟩ := assemble_size p img hp hn h
   exact Sim.loadParts_fileBytes mem0 img h1 h2 hfit hd hnul
+
+
+/-- **(a) on the compiler side, one pass.**  The peephole pass of xcmp (`OptimiseDirectives`, the last
+    pass before the in-process assembler) keeps every label of the directive list - plain, FUNC and
+    PROC - in place and in order: its three windows delete instructions only.  Hence the symbol
+    table the assembler builds (`C15_symbols`) lists exactly the FUNC/PROC labels that lowering
+    produced.  (That lowering emits one such label per procedure of the source, in source order,
+    is checked per compiled program - `runner/c15d.py` - and not proved.) -/
+theorem C15_peephole_keeps_labels (ds : List Dir) :
+    Xcmp.labelsOf (Xcmp.peephole ds) = Xcmp.labelsOf ds :=
+  Xcmp.peephole_labels ds
 
 
 end Hex.Properties.C15
